@@ -384,3 +384,60 @@ func Clip(s string, n int) string {
 	}
 	return s[:n] + fmt.Sprintf("…(+%d)", len(s)-n)
 }
+
+// ParkedOnLocks inspects the goroutines whose ids are in gids and reports whether every one
+// of them is waiting for a sync.Mutex / sync.RWMutex inside the library under test. When
+// those goroutines are the only users of the object they block on (and the library starts
+// no goroutines of its own) this is a certain deadlock, not slowness: nobody is left to
+// unlock. where names the innermost library frame of the first parked goroutine.
+func ParkedOnLocks(gids map[uint64]bool) (all bool, parked int, where string) {
+	if len(gids) == 0 {
+		return false, 0, ""
+	}
+	buf := make([]byte, 1<<20)
+	for {
+		n := runtime.Stack(buf, true)
+		if n < len(buf) {
+			buf = buf[:n]
+			break
+		}
+		buf = make([]byte, 2*len(buf))
+	}
+	seen := 0
+	for _, blk := range strings.Split(string(buf), "\n\n") {
+		var id uint64
+		var state string
+		hdr, rest, _ := strings.Cut(blk, "\n")
+		if _, err := fmt.Sscanf(hdr, "goroutine %d [", &id); err != nil || !gids[id] {
+			continue
+		}
+		seen++
+		if i := strings.IndexByte(hdr, '['); i >= 0 {
+			state = strings.TrimSuffix(hdr[i+1:], "]:")
+			state, _, _ = strings.Cut(state, ",")
+		}
+		switch state {
+		case "sync.Mutex.Lock", "sync.RWMutex.RLock", "sync.RWMutex.Lock", "semacquire":
+		default:
+			return false, parked, ""
+		}
+		lib := ""
+		for _, l := range strings.Split(rest, "\n") {
+			if strings.HasPrefix(l, "github.com/c2FmZQ/ech") {
+				lib = strings.TrimPrefix(l, "github.com/c2FmZQ/ech")
+				if i := strings.LastIndexByte(lib, '('); i > 0 {
+					lib = lib[:i]
+				}
+				break
+			}
+		}
+		if lib == "" {
+			return false, parked, ""
+		}
+		if where == "" {
+			where = strings.TrimPrefix(lib, ".")
+		}
+		parked++
+	}
+	return seen == len(gids) && parked == seen, parked, where
+}
